@@ -93,6 +93,29 @@ namespace hv
             return Port<TS<Int>>{w, r.ref};
         }
     };
+    // one explicit parameter plus two ports CAPTURED from the enclosing graph (the body refers to them directly): when the
+    // sub-graph is nested, the wiring layer turns the captures into boundary inputs of its own
+    inline thread_local std::vector<PortVal> g_captures;
+    struct SubCap1
+    {
+        static constexpr auto name = "subcap1";
+        static Port<TS<Int>> compose(Wiring &w, Port<TS<Int>> a, Scalar<"sid", Int> sid)
+        {
+            PortVal r;
+            std::vector<PortVal> params{PortVal{a.erased(), PT::Int}};
+            for (const auto &c : g_captures) params.push_back(c);
+            interpret(w, ctx().graphs.at("sub" + std::to_string(sid.value())), params, &r);
+            return Port<TS<Int>>{w, r.ref};
+        }
+    };
+    struct SubCap1Deep
+    {
+        static constexpr auto name = "subcap1deep";
+        static Port<TS<Int>> compose(Wiring &w, Port<TS<Int>> a, Scalar<"sid", Int> sid)
+        {
+            return nested_<SubCap1>(w, a, sid.value());
+        }
+    };
     struct Sub2
     {
         static constexpr auto name = "sub2";
@@ -452,6 +475,18 @@ namespace hv
                     if (a.size() == 1) put(s.dst, try_except_<Sub1>(w, pi(a[0]), sid).template as<TryRes>(), PT::TryRes);
                     else if (a.size() == 2) put(s.dst, try_except_<Sub2>(w, pi(a[0]), pi(a[1]), sid).template as<TryRes>(), PT::TryRes);
                     else throw std::runtime_error("try arity");
+                    return;
+                }
+                if (s.kw.count("cap") && a.size() == 1)
+                {
+                    // cap=<p>,<q>: the sub-graph body reads <p> and <q> of THIS graph as p1, p2 without receiving them as arguments
+                    g_captures.clear();
+                    for (const auto &nm : split(s.kws("cap"), ',')) if (!nm.empty()) g_captures.push_back(get(nm));
+                    const long long depth = s.kwi("depth", nest ? 1 : 0);
+                    put(s.dst, depth == 0 ? wire<SubCap1>(w, pi(a[0]), sid)
+                               : depth == 1 ? nested_<SubCap1>(w, pi(a[0]), sid)
+                                            : nested_<SubCap1Deep>(w, pi(a[0]), sid));
+                    g_captures.clear();
                     return;
                 }
                 if (a.empty()) put(s.dst, nest ? nested_<Sub0>(w, sid) : wire<Sub0>(w, sid));
